@@ -100,6 +100,11 @@ fn slice_args(_: &mut MW, all: &[u64]) {
     note("slice_args", all.iter().map(ToString::to_string).collect::<Vec<_>>().join(","));
 }
 
+#[then(regex = r"^(?P<user_name>\S+) is (?P<user_age>\d+)$")]
+fn named_groups(_: &mut MW, name: String, age: u32) {
+    note("named_groups", format!("{name},{age}"));
+}
+
 #[given("twice")]
 #[when("twice again")]
 fn twice(_: &mut MW) {}
@@ -109,7 +114,8 @@ fn twice(_: &mut MW) {}
 fn registration() {
     let c = MW::collection();
     // (label, keyword, text that matches, texts that must not match)
-    let cases: [(&str, &str, &str, &[&str]); 10] = [
+    let cases: [(&str, &str, &str, &[&str]); 11] = [
+        ("named_groups", "Then", "bob is 42", &["bob is x"]),
         ("twice_given", "Given", "twice", &["twice again"]),
         ("twice_when", "When", "twice again", &["twice"]),
         ("expr_custom", "Given", "pick the 2nd of 5 from shelf", &["pick the 2 of 5 from shelf", "pick the 2nd of five from shelf", "pick the 2nd of 5 from top shelf"]),
@@ -162,6 +168,7 @@ fn dispatch() {
         ("expr_custom", "Given pick the 2nd of 5 from shelf"),
         ("expr_custom_bad", "Given pick the 99999999999th of 5 from shelf"),
         ("slice_args", "When all of 1 2 3"),
+        ("named_groups", "Then bob is 42"),
         ("slice_args_bad", "When all of 1 99999999999999999999999 3"),
     ];
     let mut text = String::from("Feature: f\n");
